@@ -211,6 +211,11 @@ func runTCPProp(t *testing.T, id string, hostile bool, nontrivial func(*Stats) b
 		}
 	}
 	if r.Replay != "" {
+		if raw, _ := os.ReadFile(r.Replay); strings.Contains(string(raw), "\"deny_client\"") {
+			fmt.Println("REPLAY-NOT-MINE: not a TCP-world script")
+
+			return
+		}
 		var rf tReplay
 		if err := vkit.LoadJSON(r.Replay, &rf); err != nil {
 			t.Fatalf("cannot load replay: %v", err)
